@@ -626,6 +626,32 @@ class ConstEval:
                 continue
             if isinstance(st, ast.Pass):
                 continue
+            if isinstance(st, ast.Expr) and isinstance(st.value, ast.Call) and isinstance(st.value.func, ast.Attribute) and isinstance(st.value.func.value, ast.Name) \
+                    and st.value.func.value.id in loc and st.value.func.attr in ("append", "extend", "insert", "update", "add", "setdefault") and not st.value.keywords:
+                # in-place growth of a container that is local to the function being folded
+                recv = loc[st.value.func.value.id]
+                args = [self.eval(mod, a, env, loc) for a in st.value.args]
+                if any(isinstance(a, Unknown) for a in args) or not isinstance(recv, (list, dict, set)):
+                    raise _Unfoldable("container update")
+                try:
+                    getattr(recv, st.value.func.attr)(*args)
+                except Exception:
+                    raise _Unfoldable("container update raises") from None
+                continue
+            if isinstance(st, ast.While) and not st.orelse:
+                while True:
+                    fuel[0] -= 1
+                    if fuel[0] < 0:
+                        raise _Unfoldable("out of fuel")
+                    c = self.eval(mod, st.test, env, loc)
+                    if isinstance(c, Unknown):
+                        raise _Unfoldable(c.why)
+                    if not c:
+                        break
+                    r = self._run_block(mod, st.body, env, loc, fuel)
+                    if r:
+                        return r
+                continue
             raise _Unfoldable(f"statement {type(st).__name__}")
         return None
 
